@@ -43,6 +43,11 @@ def main():
             for (lf, it, nk) in ((2, 2, 12), (3, 2, 16), (None, None, 16)):
                 plan.append(dict(fam=fam, kind=kind, leaf=lf, internal=it, nkeys=nk, ntraces=3 if quick else 30,
                                  length=60 if quick else 200, seed=ck.seed * 1000 + len(plan), emb='ext' if len(plan) % 2 else 'mid'))
+    # object keys that are orderable but unhashable (lists): sets and set operations must get by with comparisons alone
+    for kind in ('TreeSet', 'Set'):
+        for (lf, it, nk) in ((2, 2, 12), (None, None, 16)):
+            plan.append(dict(fam='OO', kind=kind, leaf=lf, internal=it, nkeys=nk, ntraces=3 if quick else 30,
+                             length=60 if quick else 200, seed=ck.seed * 1000 + 900 + len(plan), emb='lst'))
     results = jobs.run_jobs('harness.workers.pair_worker', plan)
     traces, towners = [], []
     for job, res, err in results:
